@@ -70,6 +70,9 @@ type kvElection struct {
 	// termCancel ends the context of the current leadership term (guarded by mu).
 	termCancel context.CancelFunc
 
+	// runSeq counts the calls of Start (guarded by mu).
+	runSeq uint64
+
 	// OnPromote and OnDemote are started in the order of the transitions they
 	// belong to: every transition takes a ticket while it holds mu, and a
 	// callback is started only after the callbacks with smaller tickets have
@@ -240,6 +243,24 @@ func (e *kvElection) Start(ctx context.Context) error {
 	e.ctx, e.cancel = context.WithCancel(ctx)
 	ctxCopy := e.ctx
 	e.ctxForLog.Store(&ctxCopy)
+
+	// Cancelling the context given to Start ends the heartbeat and validation
+	// loops. A leader must then give up its claim as well: nothing refreshes
+	// its record any more, and without this it went on reporting leadership
+	// for ever and OnDemote was never invoked.
+	e.runSeq++
+	go func(run uint64, parent, runCtx context.Context) {
+		<-runCtx.Done()
+		if parent.Err() == nil {
+			return // stopped through Stop/StopWithContext
+		}
+		e.mu.Lock()
+		demoted := e.runSeq == run && e.becomeFollowerLocked()
+		e.mu.Unlock()
+		if demoted {
+			e.runOnDemote("context_cancelled")
+		}
+	}(e.runSeq, ctx, ctxCopy)
 
 	if e.connectionMonitor != nil {
 		if err := e.connectionMonitor.Start(ctx); err != nil {
